@@ -74,6 +74,8 @@ def build_input(ctx, case, db):
     for e in els:
         c = gens.loguni(r, 1e-8, 0.02) if (r.random() < 0.85 or e not in ("Na", "K", "Cl", "Ca", "Mg", "S", "N", "Li", "Br")) else gens.loguni(r, 0.02, 1.5)
         lines.append(" %s %s%s" % (e, gens.fmt(c * scale), " charge" if e == chg_el else ""))
+    if r.random() < 0.3:
+        lines.append(" -water %s" % gens.fmt(r.choice([0.25, 0.5, 2.0, 7.5])))      # read-outs per kg of water and per solution differ only when the water mass is not 1 kg
     text = "\n".join(lines) + "\n"
     # species and phases whose elements are all present
     have = set(els) | {"H", "O", "E"}
@@ -115,13 +117,13 @@ def build_input(ctx, case, db):
             heads.extend(h for h, _ in chunk)
             ln[0] += 10
     # iso.dat writes the proton as H3O+
-    punch([("TK", "TK"), ("kgw", 'TOT("water")'), ("MU", "MU"), ("CB", "CHARGE_BALANCE"), ("negLAH", '-LA("%s")' % ("H+" if "H+" in db.species or "H3O+" not in db.species else "H3O+")), ("negLAe", '-LA("e-")'), ("LAw", 'LA("H2O")')])
+    punch([("TK", "TK"), ("kgw", 'TOT("water")'), ("MU", "MU"), ("CB", "CHARGE_BALANCE"), ("negLAH", '-LA("%s")' % ("H+" if "H+" in db.species or "H3O+" not in db.species else "H3O+")), ("negLAe", '-LA("e-")'), ("LAw", 'LA("H2O")'), ("ALKB", "ALK")])
     punch([("TOT:%s" % e, 'TOT("%s")' % e) for e in els])
     for s in sp:
         punch([("LA:%s" % s, 'LA("%s")' % s), ("LM:%s" % s, 'LM("%s")' % s), ("LG:%s" % s, 'LG("%s")' % s)])
     for p in ph_:
         punch([("SI:%s" % p, 'SI("%s")' % p), ("SR:%s" % p, 'SR("%s")' % p)])
-    sel = "SELECTED_OUTPUT 1\n -reset false\n -pH true\n -pe true\n -temperature true\nUSER_PUNCH 1\n -headings " + " ".join(h.replace(" ", "_") for h in heads) + "\n -start\n" + "\n".join(progs) + "\n -end\n"
+    sel = "SELECTED_OUTPUT 1\n -reset false\n -pH true\n -pe true\n -temperature true\n -alkalinity true\nUSER_PUNCH 1\n -headings " + " ".join(h.replace(" ", "_") for h in heads) + "\n -start\n" + "\n".join(progs) + "\n -end\n"
     knobs = "KNOBS\n -convergence_tolerance 1e-12\n -tolerance 1e-16\n -iterations 400\n"
     text = knobs + sel + text + "END\n"
     # a reaction row with reactants made of elements present
@@ -259,6 +261,11 @@ def run_case(ctx, case):
         # ---- pH, pe read-outs
         if "pH" in v and g("negLAH") is not None and abs(v["pH"] - g("negLAH")) > 1e-9:
             findings.append(("C01/readout/pH", "row %d of %s: pH column %.12f vs -LA(H+) %.12f" % (ri, case["id"], v["pH"], g("negLAH"))))
+        alkc = next((v[h_] for h_ in v if h_ == "Alk" or h_.startswith("Alk(")), None)
+        if alkc is not None and g("ALKB") is not None:
+            nres += 1
+            if abs(alkc - g("ALKB")) > 1e-12 * max(abs(alkc), abs(g("ALKB"))) + 1e-25:
+                findings.append(("C01/readout/alk", "row %d of %s: Alk column %.12e vs BASIC ALK %.12e (water %.6g kg)" % (ri, case["id"], alkc, g("ALKB"), g("kgw") or 0)))
         if "pe" in v and g("negLAe") is not None and abs(v["pe"] - g("negLAe")) > 1e-9:
             findings.append(("C01/readout/pe", "row %d of %s: pe column %.12f vs -LA(e-) %.12f" % (ri, case["id"], v["pe"], g("negLAe"))))
         # ---- phases
